@@ -1186,6 +1186,7 @@ func runC04(c *Ctx) {
 	}
 	ruleOkForward(c, "omap", "stree")
 	ruleEmptyAgreesLen(c, "omap", "Map")
+	ruleSizeGuard(c, "omap")
 	ruleIterSiblings(c)
 	if seek := P.Func("omap", "Iter", "Seek"); seek != nil {
 		cF := P.fieldByType("omap", "Iter", "c", "stree", "Cursor")
